@@ -274,14 +274,14 @@ def _plan_case(rng):
 def gen_cases(rng, tier):
     cases = []
     big = tier == "thorough"
-    for _ in range(3000 if big else 300):
+    for _ in range(3000 if big else 200):
         cases.append(_plan_case(rng))
-    for _ in range(30000 if big else 1500):
+    for _ in range(30000 if big else 1000):
         cases.append(_exec_case(rng))
-    for _ in range(4000 if big else 300):
+    for _ in range(4000 if big else 200):
         cases.append(_render_case(rng, 0))
         cases.append(_render_case(rng, 1))
-    for _ in range(4000 if big else 300):
+    for _ in range(4000 if big else 200):
         cases.append(_mysql_case(rng))
     for bits in range(64):
         cases.append({"in": [4] + [(bits >> i) & 1 for i in range(6)], "kind": "batch-decision"})
